@@ -61,6 +61,9 @@ def compose_polynomial_array(
             )
         elif isinstance(array, (numpy.generic, numpy.ndarray)):
             dtypes.append(array.dtype)
+        elif isinstance(array, int) and not isinstance(array, bool):
+            # (numpy stores integers from 2**63 on as unsigned)
+            dtypes.append(numpy.asarray(array).dtype)
         else:
             dtypes.append(type(array))
 
